@@ -1,1 +1,376 @@
 // in-crate Kani harnesses included into the real crate under cfg(kani) (see MANIFEST.hooks)
+// C02 (leaves): http/de.rs — `impl TryFromHeaderValue for bool / i32 / i64 / String`.
+//
+// Property excerpt: "a value that is not of the member's type ... yields a client error instead of a defaulted,
+// merged or truncated input."
+//
+// References are written from the Smithy HTTP binding rules for header members (integer / long: a decimal
+// number, i.e. an optional '-' followed by one or more digits and nothing else; boolean: `true` / `false`;
+// string: the header text as sent), not from the implementation.
+//
+// Alphabet of the symbolic integer header bytes: { '0', '1', '9', '-', '+', ' ', 'a', 't' }.
+// Boolean / string header bytes: every byte a `HeaderValue` can hold (HTAB, 0x20..=0x7e, 0x80..=0xff).
+pub(crate) mod verif_kani_de {
+    use super::*;
+    use core::mem::forget;
+
+    fn assume_int_alphabet(b: &[u8]) {
+        let mut i = 0;
+        while i < b.len() {
+            let c = b[i];
+            kani::assume(
+                c == b'0' || c == b'1' || c == b'9' || c == b'-' || c == b'+' || c == b' ' || c == b'a' || c == b't',
+            );
+            i += 1;
+        }
+    }
+
+    /// bytes accepted by `HeaderValue::from_bytes` (RFC 9110 field-content incl. obs-text)
+    fn assume_field_bytes(b: &[u8]) {
+        let mut i = 0;
+        while i < b.len() {
+            let c = b[i];
+            kani::assume(c == b'\t' || (c >= 0x20 && c != 0x7f));
+            i += 1;
+        }
+    }
+
+    fn is_digit(c: u8) -> bool {
+        c >= b'0' && c <= b'9'
+    }
+
+    /// Reference: strict decimal `-?[0-9]+` (no '+', no blanks, no trailing text); the denoted number
+    /// (at most 4 digits here, so it fits every integer type).  The loop runs over constant indices so that
+    /// CBMC unwinds it exactly.
+    fn ref_decimal(b: &[u8]) -> Option<i64> {
+        let n = b.len();
+        let neg = n > 0 && b[0] == b'-';
+        let start = if neg { 1 } else { 0 };
+        if start >= n {
+            return None;
+        }
+        let mut v: i64 = 0;
+        let mut all_digits = true;
+        let mut i = 0;
+        while i < n {
+            if i >= start {
+                if is_digit(b[i]) {
+                    v = v * 10 + (b[i] - b'0') as i64;
+                } else {
+                    all_digits = false;
+                }
+            }
+            i += 1;
+        }
+        if !all_digits {
+            return None;
+        }
+        Some(if neg { -v } else { v })
+    }
+
+    /// The role of inputs behind the findings `header_int_prefix_accepted` (a number followed by other bytes,
+    /// or written with an explicit '+') and `header_int_sign_only_accepted` (a sign that is not followed by a
+    /// digit): the text begins with '+', '-' or a digit.  (Used together with `ref_decimal(..).is_none()`.)
+    fn begins_like_a_number(b: &[u8]) -> bool {
+        b.len() > 0 && (b[0] == b'-' || b[0] == b'+' || is_digit(b[0]))
+    }
+
+    // ----------------------------------------------------------------------------------------------
+    // i32 / i64
+    // ----------------------------------------------------------------------------------------------
+
+    /// every header text of N bytes over the alphabet, except the role of the two findings (not a decimal
+    /// integer, but beginning with a sign or a digit): accepted iff strict decimal, and then with the denoted
+    /// value
+    fn int32<const N: usize>() {
+        let b: [u8; N] = kani::any();
+        assume_int_alphabet(&b);
+        let want = ref_decimal(&b);
+        // excluded role (defects, see c02_finding_header_int_*)
+        kani::assume(want.is_some() || !begins_like_a_number(&b));
+        let hv = HeaderValue::from_bytes(&b).unwrap();
+        let got = <i32 as TryFromHeaderValue>::try_from_header_value(&hv);
+        match (&got, want) {
+            (Ok(g), Some(w)) => assert!(*g as i64 == w, "the integer differs from the number sent"),
+            (Err(_), None) => {}
+            (Ok(_), None) => panic!("a text that is not a decimal integer is accepted"),
+            (Err(_), Some(_)) => panic!("a decimal integer is refused"),
+        }
+        kani::cover!(got.is_ok());
+        kani::cover!(got.is_err());
+        forget(hv);
+    }
+
+    fn int64<const N: usize>() {
+        let b: [u8; N] = kani::any();
+        assume_int_alphabet(&b);
+        let want = ref_decimal(&b);
+        // excluded role (defects, see c02_finding_header_int_*)
+        kani::assume(want.is_some() || !begins_like_a_number(&b));
+        let hv = HeaderValue::from_bytes(&b).unwrap();
+        let got = <i64 as TryFromHeaderValue>::try_from_header_value(&hv);
+        match (&got, want) {
+            (Ok(g), Some(w)) => assert!(*g == w, "the long differs from the number sent"),
+            (Err(_), None) => {}
+            (Ok(_), None) => panic!("a text that is not a decimal integer is accepted"),
+            (Err(_), Some(_)) => panic!("a decimal integer is refused"),
+        }
+        kani::cover!(got.is_ok());
+        kani::cover!(got.is_err());
+        forget(hv);
+    }
+
+    // (harnesses are written out as plain functions: the runner's native playback locates `fn <name>(` here)
+    // unwind: atoi's digit-count loops (`max_num_digits*`) run 10 times for i32 and 19 times for i64, `nth(10)`
+    // 10 times; its scanning loops start at a symbolic index (0 or 1 after the sign), so CBMC unwinds them up
+    // to the bound whatever the text length is — the bound is kept as small as the digit-count loops allow.
+    #[kani::proof]
+    #[kani::unwind(12)]
+    pub(crate) fn c02_header_i32_1() {
+        int32::<1>();
+    }
+    #[kani::proof]
+    #[kani::unwind(12)]
+    pub(crate) fn c02_header_i32_2() {
+        int32::<2>();
+    }
+    #[kani::proof]
+    #[kani::unwind(12)]
+    pub(crate) fn c02_header_i32_3() {
+        int32::<3>();
+    }
+    #[kani::proof]
+    #[kani::unwind(12)]
+    pub(crate) fn c02_header_i32_4() {
+        int32::<4>();
+    }
+    #[kani::proof]
+    #[kani::unwind(21)]
+    pub(crate) fn c02_header_i64_1() {
+        int64::<1>();
+    }
+    #[kani::proof]
+    #[kani::unwind(21)]
+    pub(crate) fn c02_header_i64_2() {
+        int64::<2>();
+    }
+    #[kani::proof]
+    #[kani::unwind(21)]
+    pub(crate) fn c02_header_i64_3() {
+        int64::<3>();
+    }
+    #[kani::proof]
+    #[kani::unwind(21)]
+    pub(crate) fn c02_header_i64_4() {
+        int64::<4>();
+    }
+
+    /// FINDING header_int_prefix_accepted: "12a" is not an integer, the property demands a client error
+    #[kani::proof]
+    #[kani::unwind(12)]
+    pub(crate) fn c02_finding_header_int_prefix_accepted_i32() {
+        let hv = HeaderValue::from_static("12a");
+        let got = <i32 as TryFromHeaderValue>::try_from_header_value(&hv);
+        assert!(got.is_err(), "\"12a\" is accepted as an integer header value (truncated to its numeric prefix)");
+        kani::cover!(true);
+        forget(hv);
+    }
+
+    /// FINDING header_int_prefix_accepted (same parser, the other lenient spelling): "+5" is not a Smithy
+    /// decimal integer
+    #[kani::proof]
+    #[kani::unwind(21)]
+    pub(crate) fn c02_finding_header_int_prefix_accepted_i64_plus() {
+        let hv = HeaderValue::from_static("+5");
+        let got = <i64 as TryFromHeaderValue>::try_from_header_value(&hv);
+        assert!(got.is_err(), "\"+5\" is accepted as a long header value");
+        kani::cover!(true);
+        forget(hv);
+    }
+
+    /// FINDING header_int_sign_only_accepted: "-" contains no digit at all, the property demands a client error;
+    /// atoi reports one consumed byte (the sign) and the value 0, i.e. a DEFAULTED input
+    #[kani::proof]
+    #[kani::unwind(12)]
+    pub(crate) fn c02_finding_header_int_sign_only_accepted_i32() {
+        let hv = HeaderValue::from_static("-");
+        let got = <i32 as TryFromHeaderValue>::try_from_header_value(&hv);
+        assert!(got.is_err(), "\"-\" is accepted as an integer header value (as 0)");
+        kani::cover!(true);
+        forget(hv);
+    }
+
+    /// FINDING header_int_sign_only_accepted (long, sign followed by text): "+a"
+    #[kani::proof]
+    #[kani::unwind(21)]
+    pub(crate) fn c02_finding_header_int_sign_only_accepted_i64() {
+        let hv = HeaderValue::from_static("+a");
+        let got = <i64 as TryFromHeaderValue>::try_from_header_value(&hv);
+        assert!(got.is_err(), "\"+a\" is accepted as a long header value (as 0)");
+        kani::cover!(true);
+        forget(hv);
+    }
+
+    /// FINDING header_int_prefix_accepted, symbolic form: some 3-byte text over the alphabet that is not a
+    /// decimal integer is accepted (Kani produces the witness)
+    #[kani::proof]
+    #[kani::unwind(12)]
+    pub(crate) fn c02_finding_header_int_prefix_accepted_any3() {
+        let b: [u8; 3] = kani::any();
+        assume_int_alphabet(&b);
+        let want = ref_decimal(&b);
+        let hv = HeaderValue::from_bytes(&b).unwrap();
+        let got = <i32 as TryFromHeaderValue>::try_from_header_value(&hv);
+        assert!(want.is_some() || got.is_err(), "a text that is not a decimal integer is accepted");
+        kani::cover!(true);
+        forget(hv);
+    }
+
+    // ----------------------------------------------------------------------------------------------
+    // bool
+    // ----------------------------------------------------------------------------------------------
+
+    fn is_text(b: &[u8], t: &[u8]) -> bool {
+        if b.len() != t.len() {
+            return false;
+        }
+        let mut i = 0;
+        while i < t.len() {
+            if b[i] != t[i] {
+                return false;
+            }
+            i += 1;
+        }
+        true
+    }
+
+    /// every header text of N bytes (any field byte) except the two capitalised spellings "True" / "False"
+    /// (tolerated leniency, see c02_header_bool_capitalised): accepted iff exactly "true" / "false"
+    fn boolean<const N: usize>() {
+        let b: [u8; N] = kani::any();
+        assume_field_bytes(&b);
+        kani::assume(!is_text(&b, b"True") && !is_text(&b, b"False"));
+        let hv = HeaderValue::from_bytes(&b).unwrap();
+        let got = <bool as TryFromHeaderValue>::try_from_header_value(&hv);
+        let want = if is_text(&b, b"true") {
+            Some(true)
+        } else if is_text(&b, b"false") {
+            Some(false)
+        } else {
+            None
+        };
+        match (&got, want) {
+            (Ok(g), Some(w)) => assert!(*g == w, "the boolean is inverted"),
+            (Err(_), None) => {}
+            (Ok(_), None) => panic!("a text that is not a boolean is accepted"),
+            (Err(_), Some(_)) => panic!("a boolean is refused"),
+        }
+        kani::cover!(N < 4 || N > 5 || got.is_ok());
+        kani::cover!(got.is_err());
+        forget(hv);
+    }
+
+    #[kani::proof]
+    #[kani::unwind(8)]
+    pub(crate) fn c02_header_bool_1() {
+        boolean::<1>();
+    }
+    #[kani::proof]
+    #[kani::unwind(8)]
+    pub(crate) fn c02_header_bool_2() {
+        boolean::<2>();
+    }
+    #[kani::proof]
+    #[kani::unwind(8)]
+    pub(crate) fn c02_header_bool_3() {
+        boolean::<3>();
+    }
+    #[kani::proof]
+    #[kani::unwind(8)]
+    pub(crate) fn c02_header_bool_4() {
+        boolean::<4>();
+    }
+    #[kani::proof]
+    #[kani::unwind(8)]
+    pub(crate) fn c02_header_bool_5() {
+        boolean::<5>();
+    }
+    #[kani::proof]
+    #[kani::unwind(8)]
+    pub(crate) fn c02_header_bool_6() {
+        boolean::<6>();
+    }
+
+    /// observation (not a defect of the property: nothing is defaulted, merged or truncated): the capitalised
+    /// spellings are accepted with the boolean they spell
+    #[kani::proof]
+    #[kani::unwind(8)]
+    pub(crate) fn c02_header_bool_capitalised() {
+        let t = HeaderValue::from_static("True");
+        let f = HeaderValue::from_static("False");
+        assert!(matches!(<bool as TryFromHeaderValue>::try_from_header_value(&t), Ok(true)));
+        assert!(matches!(<bool as TryFromHeaderValue>::try_from_header_value(&f), Ok(false)));
+        kani::cover!(true);
+        forget(t);
+        forget(f);
+    }
+
+    // ----------------------------------------------------------------------------------------------
+    // String
+    // ----------------------------------------------------------------------------------------------
+
+    /// every header value of N field bytes: the string member is exactly the text sent; values with bytes
+    /// outside ASCII (obs-text) are refused
+    fn string<const N: usize>() {
+        let b: [u8; N] = kani::any();
+        assume_field_bytes(&b);
+        let hv = HeaderValue::from_bytes(&b).unwrap();
+        let got = <String as TryFromHeaderValue>::try_from_header_value(&hv);
+        let mut ascii = true;
+        let mut i = 0;
+        while i < N {
+            if b[i] >= 0x80 {
+                ascii = false;
+            }
+            i += 1;
+        }
+        match &got {
+            Ok(s) => {
+                assert!(ascii, "a value that is not text is accepted as a string");
+                let t = s.as_bytes();
+                assert!(t.len() == N, "the string is shorter or longer than the text sent");
+                let mut i = 0;
+                while i < N {
+                    assert!(t[i] == b[i], "the string differs from the text sent");
+                    i += 1;
+                }
+            }
+            Err(_) => assert!(!ascii, "a text value is refused"),
+        }
+        kani::cover!(got.is_ok());
+        kani::cover!(got.is_err());
+        forget(got);
+        forget(hv);
+    }
+
+    #[kani::proof]
+    #[kani::unwind(6)]
+    pub(crate) fn c02_header_string_1() {
+        string::<1>();
+    }
+    #[kani::proof]
+    #[kani::unwind(6)]
+    pub(crate) fn c02_header_string_2() {
+        string::<2>();
+    }
+    #[kani::proof]
+    #[kani::unwind(6)]
+    pub(crate) fn c02_header_string_3() {
+        string::<3>();
+    }
+    #[kani::proof]
+    #[kani::unwind(6)]
+    pub(crate) fn c02_header_string_4() {
+        string::<4>();
+    }
+}
